@@ -4,7 +4,7 @@ CONSTANTS
   c1 = c1
   c2 = c2
   Conns <- MCConns
-  BodyUnits = 2
+  BodyUnits = @@BODYUNITS@@
   MaxSends = @@MAXSENDS@@
   Sloppy = @@SLOPPY@@
   Nil = Nil
